@@ -94,6 +94,12 @@ type Scenario struct {
 	Country     string `json:"country"`
 	DateFormat  string `json:"date_format"`
 	MaxResult   int    `json:"max_result_chars"`
+	// engine option MaxTemplateChars (cuts the INPUT a router saves); 0 stands for the default 10000 unless
+	// max_template_zero is set; negative values are what a host may pass (treated as zero)
+	MaxTemplate     int  `json:"max_template_chars"`
+	MaxTemplateZero bool `json:"max_template_zero,omitempty"`
+	// the trigger / resume text is the given text repeated this many times (0, 1: as given)
+	InputRepeat int `json:"input_repeat,omitempty"`
 	// the environment's input collation as the host supplies it: "" = not given; "<empty>" = given as the empty string;
 	// the three defined collations; anything else is a value goflow does not define
 	Collation string `json:"input_collation"`
@@ -135,6 +141,37 @@ func (sc *Scenario) collation() (value string, given bool, defined bool) {
 		return sc.Collation, true, true
 	}
 	return sc.Collation, true, false
+}
+
+func (sc *Scenario) maxTemplate() int {
+	if sc.MaxTemplate == 0 && !sc.MaxTemplateZero {
+		return 10000
+	}
+	return sc.MaxTemplate
+}
+
+func (sc *Scenario) inputText(s string) string {
+	if sc.InputRepeat > 1 {
+		return strings.Repeat(s, sc.InputRepeat)
+	}
+	return s
+}
+
+// sometimes a small MaxTemplateChars, so that the cut of the saved input (with and without room for the ellipsis) is
+// exercised by ordinary operands; not when a set_run_result action saves under the router's own key (its value is an
+// evaluated template and would be cut as well)
+func genLimits(r *hx.Rand, sc *Scenario) {
+	if sc.ResultName == "" || !r.Chance(1, 4) {
+		return
+	}
+	key := snakify(sc.ResultName)
+	for _, p := range sc.PreResults {
+		if snakify(p.Name) == key {
+			return
+		}
+	}
+	sc.MaxTemplate = hx.Pick(r, []int{12, 9, 4, 3, 2, 0, -1})
+	sc.MaxTemplateZero = sc.MaxTemplate == 0
 }
 
 func (sc *Scenario) destUUID(d int) string {
@@ -563,6 +600,7 @@ func genSwitch(r *hx.Rand, id int, ext bool) *Scenario {
 	}
 	genWait(r, sc, 50, 50)
 	genPre(r, sc, true)
+	genLimits(r, sc)
 	genTriggerResume(r, sc, append(append([]string{}, th.inputs...), strings.Repeat("long red ", 90)))
 
 	hasInput := sc.Trigger == "msg" || sc.Resume == "msg"
@@ -671,6 +709,7 @@ func genRandom(r *hx.Rand, id int) *Scenario {
 	genBaseRouter(r, sc, ncat)
 	genWait(r, sc, 15, 50)
 	genPre(r, sc, true)
+	genLimits(r, sc)
 	genTriggerResume(r, sc, textInputs)
 	sc.RandBits = genRandBits(r, ncat)
 	return sc
